@@ -11,6 +11,7 @@ import (
 	"os"
 	"path"
 	"strconv"
+	"strings"
 	"time"
 
 	"github.com/ava-labs/avalanchego/ids"
@@ -65,16 +66,57 @@ func GetPort(uri string) (string, error) {
 	return purl.Port(), err
 }
 
-func FormatBalance(bal uint64) string {
-	return strconv.FormatFloat(float64(bal)/math.Pow10(int(consts.Decimals)), 'f', int(consts.Decimals), 64)
+// balanceUnit is the number of base units per token (10^Decimals).
+func balanceUnit() uint64 {
+	unit := uint64(1)
+	for i := 0; i < int(consts.Decimals); i++ {
+		unit *= 10
+	}
+	return unit
 }
 
+// FormatBalance formats [bal] (in base units) as a decimal token amount with
+// exactly [consts.Decimals] fractional digits. It uses integer arithmetic so
+// that every balance round-trips through [ParseBalance].
+func FormatBalance(bal uint64) string {
+	unit := balanceUnit()
+	return fmt.Sprintf("%d.%0*d", bal/unit, int(consts.Decimals), bal%unit)
+}
+
+// ParseBalance parses a decimal token amount ("12", "12.5", "0.000000001")
+// into base units. Fractional digits beyond [consts.Decimals] are truncated.
 func ParseBalance(bal string) (uint64, error) {
-	f, err := strconv.ParseFloat(bal, 64)
-	if err != nil {
-		return 0, err
+	wholeStr, fracStr, _ := strings.Cut(bal, ".")
+	if wholeStr == "" && fracStr == "" {
+		return 0, &strconv.NumError{Func: "ParseBalance", Num: bal, Err: strconv.ErrSyntax}
 	}
-	return uint64(f * math.Pow10(int(consts.Decimals))), nil
+	whole := uint64(0)
+	if wholeStr != "" {
+		w, err := strconv.ParseUint(wholeStr, 10, 64)
+		if err != nil {
+			return 0, err
+		}
+		whole = w
+	}
+	if len(fracStr) > int(consts.Decimals) {
+		fracStr = fracStr[:consts.Decimals]
+	}
+	frac := uint64(0)
+	if fracStr != "" {
+		f, err := strconv.ParseUint(fracStr, 10, 64)
+		if err != nil {
+			return 0, err
+		}
+		for i := len(fracStr); i < int(consts.Decimals); i++ {
+			f *= 10
+		}
+		frac = f
+	}
+	unit := balanceUnit()
+	if whole > (math.MaxUint64-frac)/unit {
+		return 0, &strconv.NumError{Func: "ParseBalance", Num: bal, Err: strconv.ErrRange}
+	}
+	return whole*unit + frac, nil
 }
 
 func Repeat[T any](v T, n int) []T {
